@@ -11,7 +11,9 @@ From Sylt Require Import Back.IR Back.Emit Back.ScopeProofs.
 From Sylt Require Import Pres.EmitAst Pres.EmitRel Pres.Names Pres.LuaFuel Pres.LuaEv Pres.Preamble.
 From Sylt Require Import Pres.Frag.
 From Sylt Require Import Pres.SimDefs Pres.SimOps Pres.SimVals.
-From Sylt Require Import Pres.SimExpr Pres.LowerShape Pres.SimSteps Pres.SimExprProofs Pres.LuaLoop Pres.NoExit.
+From Sylt Require Import Pres.SimExpr Pres.LowerShape Pres.SimSteps Pres.SimExprProofs.
+From Sylt Require Import Pres.LuaLoop.
+From Sylt Require Import Pres.NoExit Pres.NoRet.
 From Sylt Require Import Lua.LuaAst Lua.LuaMap Lua.LuaNum Lua.LuaProofs Lua.LuaCore.
 Import ListNotations.
 Local Open Scope N_scope.
@@ -23,27 +25,34 @@ Variable pv : N.
 Variable sv : N.
 Variable bound : N.
 Variable u : counts.
+Variable fl : list (N * nat).
+Variable W : world.
 
 (* ------------------------------------------------------------------ statements: semantics *)
 
-Notation rel := (rel pv bound).
+Notation rel := (rel pv sv bound u fl W).
 Notation ctx_ok := (ctx_ok bound).
 
-Notation okstepS := (okstepS pv bound).
-Notation sext := (sext pv).
-Notation xpost := (exit_post pv bound).
+Notation okstepS := (okstepS pv sv bound u fl W).
+Notation sext := (sext pv fl).
+Notation xpost := (exit_post pv sv bound u fl W).
 
 Lemma memN_false v l : memN v l = false -> ~ In v l.
 Proof.
   unfold memN. intros H Hin. assert (existsb (N.eqb v) l = true) by (apply existsb_exists; exists v; split; [exact Hin | apply N.eqb_refl]). congruence.
 Qed.
 
-Lemma fresh_id_inv sc var : fresh_id pv sv bound sc var = true -> ~ In var sc /\ var <> pv /\ var <> sv /\ var < bound.
+Lemma fresh_id_inv sc var : fresh_id pv sv bound fl sc var = true -> ~ In var sc /\ var <> pv /\ var <> sv /\ var < bound.
 Proof.
   unfold fresh_id. intros H. frag_split H.
-  apply negb_true_iff in H, Hfr1, Hfr0. apply N.ltb_lt in Hfr.
-  split; [apply memN_false; exact H|]. split; [intros ->; rewrite N.eqb_refl in Hfr1; discriminate|].
-  split; [intros ->; rewrite N.eqb_refl in Hfr0; discriminate | exact Hfr].
+  apply negb_true_iff in H, Hfr2, Hfr1. apply N.ltb_lt in Hfr0.
+  split; [apply memN_false; exact H|]. split; [intros ->; rewrite N.eqb_refl in Hfr2; discriminate|].
+  split; [intros ->; rewrite N.eqb_refl in Hfr1; discriminate | exact Hfr0].
+Qed.
+
+Lemma fresh_id_fl sc var : fresh_id pv sv bound fl sc var = true -> ~ In var (fnames fl).
+Proof.
+  unfold fresh_id. intros H. frag_split H. apply negb_true_iff in Hfr. apply memN_false. exact Hfr.
 Qed.
 
 Definition s_alloc (st : sstate) (x : sval) : sstate :=
@@ -55,15 +64,61 @@ Proof. intros H. rewrite nth_error_app1; [exact H | apply nth_error_Some; congru
 Lemma nth_error_app_new {A} (l : list A) x : nth_error (l ++ [x]) (length l) = Some x.
 Proof. rewrite nth_error_app2 by lia. rewrite Nat.sub_diag. reflexivity. Qed.
 
+(* the world invariant when a new user variable is defined on both sides *)
+Lemma winv_define_user sc e st E stL var x v :
+  winv pv sv bound u fl W sc e st E stL -> ~ In var sc -> ~ In var (fnames fl) -> var <> pv ->
+  winv pv sv bound u fl W (var :: sc) ((var, length (SyltSem.cells st)) :: e) (s_alloc st x)
+       (sset (fmt_var var) (s_ncell stL) E) (snd (alloc_cell stL v)).
+Proof.
+  intros Hw Hnin Hnfl Hnpv.
+  assert (Hw1 : winv pv sv bound u fl W sc e (s_alloc st x) E (snd (alloc_cell stL v))).
+  { apply (winv_states pv sv bound u fl W sc e st E stL _ _ Hw); auto.
+    - intros c y Hy. cbn [s_alloc SyltSem.cells]. pose proof (wi_IS _ _ _ _ _ _ _ _ _ _ _ Hw c y Hy) as Hn.
+      rewrite nth_error_app1; [reflexivity | apply nth_error_Some; congruence].
+    - intros p lv Hp. apply get_cell_alloc_old. apply (wi_IL _ _ _ _ _ _ _ _ _ _ _ Hw p lv Hp).
+    - cbn; lia. }
+  apply (winv_env pv sv bound u fl W sc e _ E _ _ _ _ Hw1).
+  - intros w c y [<-|Hin] Hlk Hy; cbn [SyltSem.lookup] in Hlk.
+    + rewrite N.eqb_refl in Hlk. inversion Hlk; subst c.
+      pose proof (wi_IS _ _ _ _ _ _ _ _ _ _ _ Hw _ _ Hy) as Hn.
+      assert (length (SyltSem.cells st) < length (SyltSem.cells st))%nat by (apply nth_error_Some; congruence). lia.
+    + destruct (N.eqb_spec var w) as [->|]; [contradiction|]. exact (wi_scS _ _ _ _ _ _ _ _ _ _ _ Hw w c y Hin Hlk Hy).
+  - intros w [<-|Hin]; [exact Hnfl | apply (wi_scfl _ _ _ _ _ _ _ _ _ _ _ Hw w Hin)].
+  - intros w p lv [<-|Hin] Hy Hp.
+    + rewrite sget_sset_same in Hy. inversion Hy; subst p. destruct (wi_IL _ _ _ _ _ _ _ _ _ _ _ Hw _ _ Hp) as [_ Hlt]. lia.
+    + rewrite sget_sset_var in Hy by (intros ->; contradiction). exact (wi_lprot _ _ _ _ _ _ _ _ _ _ _ Hw w p lv Hin Hy Hp).
+  - intros d Hd Hvis. destruct (wi_vsc _ _ _ _ _ _ _ _ _ _ _ Hw d Hd Hvis) as [Hisc Hifl].
+    assert (Hne : forall g, fvis d g \/ g = pv \/ g = fd_var d -> var <> g).
+    { intros g [[Hg|Hg]|[Hg|Hg]] Heq.
+      - subst g. apply Hnin. apply Hisc. exact Hg.
+      - subst g. apply Hnfl. unfold fnames in *. apply (incl_map fst Hifl). exact Hg.
+      - apply Hnpv. congruence.
+      - apply Hnfl. rewrite Heq, Hg. exact Hvis. }
+    apply (fvisS_same pv e _ d (wi_visS _ _ _ _ _ _ _ _ _ _ _ Hw d Hd Hvis)).
+    + cbn [SyltSem.lookup]. destruct (N.eqb_spec var (fd_var d)) as [Heq|]; [|reflexivity].
+      exfalso. apply (Hne (fd_var d)); [right; right; reflexivity | exact Heq].
+    + intros g Hg. cbn [SyltSem.lookup]. destruct (N.eqb_spec var g) as [Heq|]; [|reflexivity].
+      exfalso. apply (Hne g); [destruct Hg as [Hg|Hg]; [left; exact Hg | right; left; exact Hg] | exact Heq].
+  - intros d Hd Hvis. destruct (wi_vsc _ _ _ _ _ _ _ _ _ _ _ Hw d Hd Hvis) as [Hisc Hifl].
+    apply (fvisL_same E _ d (wi_visL _ _ _ _ _ _ _ _ _ _ _ Hw d Hd Hvis)).
+    + apply sget_sset_var. intros Heq. apply Hnfl. rewrite <- Heq. exact Hvis.
+    + intros g [Hg|Hg]; apply sget_sset_var; intros Heq; subst g.
+      * apply Hnin. apply Hisc. exact Hg.
+      * apply Hnfl. unfold fnames in *. apply (incl_map fst Hifl). exact Hg.
+  - intros d Hd Hvis. destruct (wi_vsc _ _ _ _ _ _ _ _ _ _ _ Hw d Hd Hvis) as [Hisc Hifl].
+    split; [apply incl_tl; exact Hisc | exact Hifl].
+Qed.
+
 (* IDefine var for a user variable: `local V<var> = nil`;  SyltSem: new_cell (SV VLuaNil) *)
 Lemma step_define_user sc e st F c E stL l var :
-  rel sc e st E stL -> lut_ok bound l c c -> fresh_id pv sv bound sc var = true -> 1 <= count_of u var ->
+  rel sc e st E stL -> lut_ok bound l c c -> fresh_id pv sv bound fl sc var = true -> 1 <= count_of u var ->
   exists E' stL',
     okstepS sc (var :: sc) ((var, length (SyltSem.cells st)) :: e) (s_alloc st (SV Values.VLuaNil)) F c c E stL
             (fst (agen_one u l (IDefine var))) E' stL' F.
 Proof.
   intros Hrel Hl Hfresh Hu. destruct (fresh_id_inv _ _ Hfresh) as (Hnin & Hnpv & Hnsv & Hvb).
-  pose proof Hrel as [Hv Hb Hi Hp Hpb HpE HpG Hwf Ht Hli].
+  pose proof (fresh_id_fl _ _ Hfresh) as Hnfl.
+  pose proof Hrel as [Hv Hb Hi Hp Hpb HpE HpG Hwf Ht Hli HW].
   cbn [agen_one]. assert (Hused : (0 <? count_of u var) = true) by (apply N.ltb_lt; lia). rewrite Hused. cbn [fst].
   rewrite (aname_none l var) by (apply Hl; right; exact Hvb).
   assert (Hex : Exec E (SLocal [fmt_var var] [ENil]) stL
@@ -115,6 +170,7 @@ Proof.
     + apply wfenv_local. exact Hwf.
     + exact Ht.
     + apply linv_alloc_cell. exact Hli.
+    + apply winv_define_user; assumption.
   - intros w Hw. apply sget_sset_var. intros ->. contradiction.
 Qed.
 
@@ -139,7 +195,7 @@ Lemma step_assign_user sc e st F c c' E stL l var a sv_ cc :
   exists stL', okstepS sc sc e (s_write st cc sv_) F c c' E stL (fst (agen_one u l (IAssign var a))) E stL' F.
 Proof.
   intros Hrel Hl Hin Hu Hlk Hd.
-  pose proof Hrel as [Hv Hb Hi Hp Hpb HpE HpG Hwf Ht Hli].
+  pose proof Hrel as [Hv Hb Hi Hp Hpb HpE HpG Hwf Ht Hli HW].
   destruct (Hv var Hin) as (cc' & x0 & p & H1 & H2 & H3 & H4). rewrite Hlk in H1. inversion H1; subst cc'. clear H1.
   destruct (Hb var Hin) as [Hvb Hvp].
   cbn [agen_one]. assert (Hused : (0 <? count_of u var) = true) by (apply N.ltb_lt; lia). rewrite Hused. cbn [fst].
@@ -155,7 +211,7 @@ Proof.
       * apply Hx1. eapply wf_alloc; eassumption.
       * intros ->. assert (fmt_var t = fmt_var var) by (eapply wf_inj; eassumption). apply fmt_var_inj in H. lia.
     + cbn [set_cell s_ncell]. apply Hx1.
-  - pose proof Hrel1 as [Hv1 _ _ _ _ _ HpG1 Hwf1 Ht1 Hli1].
+  - pose proof Hrel1 as [Hv1 _ _ _ _ _ HpG1 Hwf1 Ht1 Hli1 HW1].
     assert (Hccl : (cc < length (SyltSem.cells st))%nat) by (apply nth_error_Some; congruence).
     constructor.
     + intros w Hw. destruct (Hv1 w Hw) as (cw & xw & pw & Hw1 & Hw2 & Hw3 & Hw4).
@@ -178,11 +234,16 @@ Proof.
     + eapply wfenv_ext; [exact Hwf1 | cbn; lia].
     + exact Ht1.
     + apply linv_set_cell. exact Hli1.
+    + apply (winv_states pv sv bound u fl W sc e st E st1 _ _ HW1); auto; [| |cbn; lia].
+      * intros c0 y Hy. cbn [s_write SyltSem.cells]. apply nth_set_nth_other. intros <-.
+        exact (wi_scS _ _ _ _ _ _ _ _ _ _ _ HW1 var cc y Hin Hlk Hy).
+      * intros q lv0 Hq. apply get_cell_set_other. intros ->.
+        exact (wi_lprot _ _ _ _ _ _ _ _ _ _ _ HW1 var p lv0 Hin H3 Hq).
 Qed.
 
 
-Notation okstep := (okstep pv bound).
-Notation P_eval := (P_eval pv sv bound u).
+Notation okstep := (okstep pv sv bound u fl W).
+Notation P_eval := (P_eval pv sv bound u fl W).
 
 Lemma okstepS_trans sc sc1 sc2 e2 st2 F F1 F2 c c0 c1 E stL b1 E1 stL1 b2 E2 stL2 e1 st1 :
   okstepS sc sc1 e1 st1 F c c0 E stL b1 E1 stL1 F1 -> okstepS sc1 sc2 e2 st2 F1 c0 c1 E1 stL1 b2 E2 stL2 F2 ->
@@ -202,11 +263,11 @@ Proof.
   intros Hc (_ & Hle & Hfr & _) (_ & Hf & _ & Hn & _). eapply ctx_step; eassumption.
 Qed.
 
-Notation stmt_post := (stmt_post pv bound).
-Notation P_exec := (P_exec pv sv bound u).
-Notation P_execs := (P_execs pv sv bound u).
-Notation P_bv := (P_bv pv sv bound u).
-Notation bv_post := (bv_post pv bound).
+Notation stmt_post := (stmt_post pv sv bound u fl W).
+Notation P_exec := (P_exec pv sv bound u fl W).
+Notation P_execs := (P_execs pv sv bound u fl W).
+Notation P_bv := (P_bv pv sv bound u fl W).
+Notation bv_post := (bv_post pv sv bound u fl W).
 
 Lemma P_stmt_zero : P_exec O /\ P_execs O.
 Proof.
@@ -229,12 +290,12 @@ Proof.
     split; [|split; [apply sext_refl | apply incl_refl]].
     split; [apply XS_nil|]. split; [apply wframe_refl|]. split; [exact Hrel | split; [apply F_new_refl | apply keep_refl]].
   - destruct k as [|k]; [discriminate|]. rewrite frag_stmts_cons in Hfrag.
-    destruct (frag_stmt pv sv bound k sc s) as [sc1|] eqn:Hfs; [|discriminate Hfrag].
+    destruct (frag_stmt pv sv bound fl k sc s) as [sc1|] eqn:Hfs; [|discriminate Hfrag].
     apply mapM_cons_ok in Hm as (y & c1 & ys & Hy & Hys & ->). cbn [concat] in *.
     apply ucovers_app in Hu as [Huy Huys].
-    destruct (L_stmt_all pv sv bound u g k s ctx c y c1 sc sc1 l Hy Hfs) as (_ & _ & (_ & Hc1 & _)).
+    destruct (L_stmt_all pv sv bound u fl g k s ctx c y c1 sc sc1 l Hy Hfs) as (_ & _ & (_ & Hc1 & _)).
     assert (Hrest : forall l0, exists b2 l2, cshape u l0 (concat ys) b2 l2 c1 c')
-      by (intros l0; eapply (L_stmts_all pv sv bound u); eassumption).
+      by (intros l0; eapply (L_stmts_all pv sv bound u fl); eassumption).
     destruct (Hrest l) as (_ & _ & (_ & Hc1' & _)).
     assert (Hctxs : ctx_ok l F E c c1) by (eapply ctx_sub; [exact Hctx | lia | lia]).
     cbn [SyltSem.exec_block] in Hev. unfold SyltSem.bind at 1 in Hev.
@@ -260,8 +321,8 @@ Proof.
     + destruct Hpost as (E2 & stL2 & F2 & Hok2 & Hse2 & Hinc2).
       exists E2, stL2, F2. split; [eapply okstepS_trans; eassumption|].
       split; [eapply sext_trans; eassumption | eapply incl_tran; eassumption].
-    + cbn [stmt_post] in *. eapply (exit_pre pv bound ctx sc sc1 e e1 st st1); eassumption.
-    + cbn [stmt_post] in *. eapply (exit_pre pv bound ctx sc sc1 e e1 st st1); eassumption.
+    + cbn [stmt_post] in *. eapply (exit_pre pv sv bound u fl W ctx sc sc1 e e1 st st1); eassumption.
+    + cbn [stmt_post] in *. eapply (exit_pre pv sv bound u fl W ctx sc sc1 e e1 st st1); eassumption.
 Qed.
 
 
@@ -278,49 +339,6 @@ Proof.
   intros H. rewrite <- (app_nil_r code). rewrite (estack_Emits _ _ _ _ _ H).
   cbn [estack close_all]. symmetry. apply rev'_rev_append_nil.
 Qed.
-
-(* the loop of the reference interpreter (the local fixpoint of SyltSem.exec) *)
-Definition loop_go (f : nat) (e : senv) (cond : Resolved.expr) (body : list Resolved.stmt) : nat -> SyltSem.M senv :=
-  fix loop (n : nat) : SyltSem.M senv :=
-    match n with
-    | O => SyltSem.stop SyltSem.OFuel
-    | S n' =>
-        SyltSem.bind (SyltSem.eval f e cond) (fun c => SyltSem.bind (SyltSem.truth "loop" c) (fun bc =>
-          if bc then
-            fun st =>
-              match SyltSem.exec_block f e body st with
-              | (SyltSem.RVal _, st') => loop n' st'
-              | (SyltSem.RAbrupt SyltSem.CBreak, st') => (SyltSem.RVal e, st')
-              | (SyltSem.RAbrupt SyltSem.CContinue, st') => loop n' st'
-              | (r, st') => (match r with
-                             | SyltSem.RVal _ => SyltSem.RVal e
-                             | SyltSem.RStop o => SyltSem.RStop o
-                             | SyltSem.RAbrupt c => SyltSem.RAbrupt c
-                             end, st')
-              end
-          else SyltSem.ret e))
-    end.
-
-Lemma exec_loop_eq f e cond body sp : SyltSem.exec (S f) e (SLoop cond body sp) = loop_go f e cond body f.
-Proof. reflexivity. Qed.
-
-Lemma loop_go_S f e cond body m :
-  loop_go f e cond body (S m) =
-  SyltSem.bind (SyltSem.eval f e cond) (fun c => SyltSem.bind (SyltSem.truth "loop" c) (fun bc =>
-    if bc then
-      fun st =>
-        match SyltSem.exec_block f e body st with
-        | (SyltSem.RVal _, st') => loop_go f e cond body m st'
-        | (SyltSem.RAbrupt SyltSem.CBreak, st') => (SyltSem.RVal e, st')
-        | (SyltSem.RAbrupt SyltSem.CContinue, st') => loop_go f e cond body m st'
-        | (r, st') => (match r with
-                       | SyltSem.RVal _ => SyltSem.RVal e
-                       | SyltSem.RStop o => SyltSem.RStop o
-                       | SyltSem.RAbrupt c => SyltSem.RAbrupt c
-                       end, st')
-        end
-    else SyltSem.ret e)).
-Proof. reflexivity. Qed.
 
 Lemma wframe_of_xkeep c c' E stL stL' : xkeep bound c c' E stL stL' -> wframe bound c c' E stL E stL'.
 Proof. intros [Hn Hc]. constructor; auto. Qed.
@@ -339,7 +357,7 @@ Lemma rel_back sc sc1 e e1 st st1 F F1 a b E stL b1 E1 stL1 :
   rel sc e st1 E stL1.
 Proof.
   intros (Hx1 & Hf1 & Hr1 & Hn1 & Hk1) Hrel Hse Hinc.
-  eapply (rel_restrict pv bound sc e st e st1 E E1 stL stL1); [exact Hrel | eapply rel_shrink; eassumption | exact Hk1 |].
+  eapply (rel_restrict pv sv bound u fl W sc e st e st1 E E1 stL stL1); [exact Hrel | eapply rel_shrink; eassumption | exact Hk1 |].
   apply (wr_ncell _ _ _ _ _ _ _ Hf1).
 Qed.
 
@@ -369,7 +387,7 @@ Proof.
   destruct s; try discriminate Hfrag.
   - (* SAssignment *)
     destruct target; try discriminate Hfrag. rewrite frag_stmt_assign in Hfrag.
-    destruct (assign_op op && memN var sc && frag_expr pv sv bound k sc value)%bool eqn:Hc; [|discriminate Hfrag].
+    destruct (assign_op op && memN var sc && frag_expr pv sv bound fl k sc value)%bool eqn:Hc; [|discriminate Hfrag].
     inversion Hfrag; subst sc'. clear Hfrag. frag_split Hc.
     assert (Hin : In var sc).
     { unfold memN in Hfr0. apply existsb_exists in Hfr0 as (y & Hy & Heq). apply N.eqb_eq in Heq. subst. exact Hy. }
@@ -379,7 +397,7 @@ Proof.
     apply ucovers_app in Hu as [Huv Hu2].
     assert (Hcres : 1 <= count_of u c) by (eapply Hu2; [right; left; reflexivity | right; left; reflexivity]).
     assert (Hcvar : 1 <= count_of u var) by (eapply Hu2; [right; left; reflexivity | left; reflexivity]).
-    destruct (L_expr_all pv sv bound u g k value ctx (c + 1) code_v rv c0 sc l Hm Hfr) as (_ & _ & (_ & Hcc0 & _) & Hrv1 & Hrv2).
+    destruct (L_expr_all pv sv bound u fl g k value ctx (c + 1) code_v rv c0 sc l Hm Hfr) as (_ & _ & (_ & Hcc0 & _) & Hrv1 & Hrv2).
     assert (Htail : forall l1, exists bt l', cshape u l1 [opi; IAssign var c] bt l' c c0).
     { intros l1. destruct op; try discriminate Hc; apply ret_ok in Hm0 as [<- _]; eexists _, _.
       - eapply cshape_cons'; [apply (cshape_plain u l1 (ICopy c rv) c c0); [lia | reflexivity | reflexivity | apply used_plain]|].
@@ -390,8 +408,8 @@ Proof.
         apply (cshape_plain u _ (IAssign var c) c c0); [lia | reflexivity | reflexivity | apply used_plain].
       - eapply cshape_cons'; [eapply (cshape_iis u l1 (IMul c var rv) c _ c c0); [lia | reflexivity | reflexivity]|].
         apply (cshape_plain u _ (IAssign var c) c c0); [lia | reflexivity | reflexivity | apply used_plain]. }
-    destruct (r_vars _ _ _ _ _ _ _ Hrel var Hin) as (cv & x0 & p0 & Hlk & Hnth0 & Hp0 & Hv0).
-    destruct (r_scb _ _ _ _ _ _ _ Hrel var Hin) as [Hvarb Hvarp].
+    destruct (r_vars _ _ _ _ _ _ _ _ _ _ _ Hrel var Hin) as (cv & x0 & p0 & Hlk & Hnth0 & Hp0 & Hv0).
+    destruct (r_scb _ _ _ _ _ _ _ _ _ _ _ Hrel var Hin) as [Hvarb Hvarp].
     assert (Hctxv : ctx_ok l F E (c + 1) c0) by (eapply ctx_sub; [exact Hctx | lia | lia]).
     assert (Hbc : bound <= c) by (destruct Hctx; assumption).
     cbn [SyltSem.exec] in Hev. rewrite Hlk in Hev. unfold SyltSem.bind at 1 in Hev.
@@ -400,12 +418,12 @@ Proof.
          destruct (IHe g k value ctx (c + 1) code_v rv c0 e st _ st' sc l E stL F He1 Hm Hfr Huv Hctxv Hrel Hint) as (b1 & l1 & Hs1 & _ & _ & Hp1).
          destruct (Htail l1) as (bt & l' & Hst).
          eexists _, _. split; [eapply cshape_app'; [eapply cshape_widen; [exact Hs1 | lia | lia] | exact Hst]|].
-         cbn [stmt_post eval_post] in *. eapply exit_app; [eapply (xpost_widen pv bound ctx sc e (c + 1) c0 c c0); [exact Hp1 | lia | lia] | apply N.le_refl]. }
+         cbn [stmt_post eval_post] in *. eapply exit_app; [eapply (xpost_widen pv sv bound u fl W ctx sc e (c + 1) c0 c c0); [exact Hp1 | lia | lia] | apply N.le_refl]. }
     2: { inversion Hev; subst.
          destruct (IHe g k value ctx (c + 1) code_v rv c0 e st _ st' sc l E stL F He1 Hm Hfr Huv Hctxv Hrel Hint) as (b1 & l1 & Hs1 & _ & _ & Hp1).
          destruct (Htail l1) as (bt & l' & Hst).
          eexists _, _. split; [eapply cshape_app'; [eapply cshape_widen; [exact Hs1 | lia | lia] | exact Hst]|].
-         cbn [stmt_post eval_post] in *. eapply exit_app; [eapply (xpost_widen pv bound ctx sc e (c + 1) c0 c c0); [exact Hp1 | lia | lia] | apply N.le_refl]. }
+         cbn [stmt_post eval_post] in *. eapply exit_app; [eapply (xpost_widen pv sv bound u fl W ctx sc e (c + 1) c0 c c0); [exact Hp1 | lia | lia] | apply N.le_refl]. }
     destruct (IHe g k value ctx (c + 1) code_v rv c0 e st _ st1 sc l E stL F He1 Hm Hfr Huv Hctxv Hrel I)
       as (b1 & l1 & Hs1 & _ & _ & E1 & stL1 & F1 & Hok1 & Hd1).
     pose proof Hok1 as (Hx1 & Hf1 & Hrel1 & Hn1 & Hk1).
@@ -418,19 +436,18 @@ Proof.
       - rewrite (cx_E _ _ _ _ _ _ Hctx c) in H' by lia. discriminate.
       - apply fmt_var_inj in Heq. subst. lia.
       - apply fmt_var_inj in Heq. subst. lia. }
-    pose proof (r_wf _ _ _ _ _ _ _ Hrel1) as Hwf1. pose proof (r_linv _ _ _ _ _ _ _ Hrel1) as Hli1.
-    destruct (r_vars _ _ _ _ _ _ _ Hrel1 var Hin) as (cv1 & x1 & p1 & Hlk1 & Hnth1 & Hp1 & Hv1).
+    pose proof (r_wf _ _ _ _ _ _ _ _ _ _ _ Hrel1) as Hwf1. pose proof (r_linv _ _ _ _ _ _ _ _ _ _ _ Hrel1) as Hli1.
+    destruct (r_vars _ _ _ _ _ _ _ _ _ _ _ Hrel1 var Hin) as (cv1 & x1 & p1 & Hlk1 & Hnth1 & Hp1 & Hv1).
     rewrite Hlk in Hlk1. inversion Hlk1; subst cv1. clear Hlk1.
     assert (Hcr : c <= c < c0) by lia.
     (* the statements after the value, given a denotation of `res` *)
     assert (Hfinish : forall E2 stL2 F2 ss l2 newv,
-               ExecS E1 ss stL1 (ROk (E2, SigNormal) stL2) -> lframe c c0 E1 stL1 E2 stL2 -> s_out stL2 = s_out stL1 ->
+               ExecS E1 ss stL1 (ROk (E2, SigNormal) stL2) -> lframe c c0 E1 stL1 E2 stL2 -> rel sc e st1 E2 stL2 ->
                (forall w, w < bound -> alut_get l2 w = None) ->
                denotes F2 E2 stL2 (aexpand l2 c) newv ->
                exists stL3, okstepS sc sc e (s_write st1 cv newv) F c c0 E stL
                               ((b1 ++ ss) ++ fst (agen_one u l2 (IAssign var c))) E2 stL3 F1).
-    { intros E2 stL2 F2 ss l2 newv Hxs Hlf Hout Hl2v Hden.
-      assert (Hrel2 : rel sc e st1 E2 stL2) by (eapply rel_lframe; eassumption).
+    { intros E2 stL2 F2 ss l2 newv Hxs Hlf Hrel2 Hl2v Hden.
       assert (Hlok2 : lut_ok bound l2 c c) by (intros t [Ht|Ht]; [lia | apply Hl2v; exact Ht]).
       destruct (step_assign_user sc e st1 F2 c c E2 stL2 l2 var c newv cv Hrel2 Hlok2 Hin Hcvar Hlk Hden)
         as (stL3 & Hx3 & Hf3 & Hrel3 & _ & Hk3).
@@ -468,8 +485,9 @@ Proof.
         by (eapply denotes_mono; [exact Hd1 | apply fut_refl | apply incl_tl, incl_refl]).
       pose proof (denotes_binop (var :: F1) E1 stL1 bop _ _ xo xn x st1 st1 Hvop Hdo Hdn Hbv) as Hdr.
       destruct (op_iis u (var :: F1) E1 stL1 l1 c _ (SV x) c c0 Hwf1 Hli1 HE1c Hcr Hl1c Hdr)
-        as (E2 & stL2 & F2 & Hx2 & Hfr2 & Ho2 & _ & Hden2). specialize (Hden2 Hcres).
-      destruct (Hfinish E2 stL2 F2 _ (snd (aiis u l1 c (bexpr bop (aexpand l1 var) (aexpand l1 rv)))) (SV x) Hx2 Hfr2 Ho2) as (stL3 & Hok3).
+        as (E2 & stL2 & F2 & Hx2 & Hfr2 & Ho2 & _ & Hden2 & Hrl2). specialize (Hden2 Hcres).
+      destruct (Hfinish E2 stL2 F2 _ (snd (aiis u l1 c (bexpr bop (aexpand l1 var) (aexpand l1 rv)))) (SV x) Hx2 Hfr2
+                        (Hrl2 pv sv bound fl W sc e st1 Hbc Hrel1)) as (stL3 & Hok3).
       { intros w Hw. rewrite (aiis_frame u l1 c _ c (c + 1)) by lia. apply Hl1u. exact Hw. }
       { exact Hden2. }
       eexists _, _. split.
@@ -490,7 +508,7 @@ Proof.
       { cbn [agen_one]. replace (0 <? count_of u c) with true by (symmetry; apply N.ltb_lt; lia).
         cbn [fst]. rewrite (aname_none l1 c Hl1c). reflexivity. }
       destruct (Hfinish _ _ (c :: F1) [SLocal [fmt_var c] [aexpand l1 rv]] l1 nv (ExecS_one _ _ _ _ Hexm) Hfrm) as (stL3 & Hok3).
-      { cbn [alloc_cell snd s_out]. apply Hxm. }
+      { apply (rel_op_local pv sv bound u fl W sc e st1 E1 stL1 stm c lv Hrel1 Hxm Hbc). }
       { exact Hl1u. }
       { unfold aexpand. rewrite Hl1c.
         eapply denotes_local; [left; reflexivity | apply sget_sset_same | rewrite get_cell_alloc_new; exact Hvr]. }
@@ -507,7 +525,7 @@ Proof.
     + apply ret_ok in Hm0 as [<- _]. exact (Harith Sub _ eq_refl eq_refl Hu2 Hev).
     + apply ret_ok in Hm0 as [<- _]. exact (Harith Mul _ eq_refl eq_refl Hu2 Hev).
   - (* SDefinition *)
-    destruct (frag_stmt_def pv sv bound _ _ _ _ _ _ _ _ _ Hfrag) as (Hnf & Hfresh & Hfe & ->).
+    destruct (frag_stmt_def pv sv bound fl _ _ _ _ _ _ _ _ _ Hfrag) as (Hnf & Hfresh & Hfe & ->).
     destruct (fresh_id_inv _ _ Hfresh) as (Hnin & Hnpv & Hnsv & Hvb).
     cbn [statement] in Hlow. destruct g as [|g']; [discriminate|].
     rewrite (definition_nonfun g' var value ctx Hnf) in Hlow. mon Hlow.
@@ -515,7 +533,7 @@ Proof.
     apply ucovers_cons in Hu as [Hu1 Hu]. apply ucovers_app in Hu as [Huv Hua].
     assert (Hcvar : 1 <= count_of u var) by (apply Hu1; left; reflexivity).
     assert (Hcrv : 1 <= count_of u rv) by (eapply Hua; [left; reflexivity | right; left; reflexivity]).
-    destruct (L_expr_all pv sv bound u g' k value ctx c code_v rv c' (var :: sc) l Hm Hfe) as (_ & _ & (_ & Hcc & _) & Hrv1 & Hrv2).
+    destruct (L_expr_all pv sv bound u fl g' k value ctx c code_v rv c' (var :: sc) l Hm Hfe) as (_ & _ & (_ & Hcc & _) & Hrv1 & Hrv2).
     set (e' := (var, length (SyltSem.cells st)) :: e).
     assert (Hlcc : lut_ok bound l c c) by (eapply lut_ok_sub; [apply (cx_lut _ _ _ _ _ _ Hctx) | lia | lia]).
     destruct (step_define_user sc e st F c E stL l var Hrel Hlcc Hfresh Hcvar) as (E1 & stL1 & Hokd).
@@ -525,7 +543,7 @@ Proof.
     pose proof Hokd as (Hxd & _ & Hrel1 & _).
     assert (Hse : sext sc e e').
     { intros w Hw. unfold e'. cbn [SyltSem.lookup]. destruct (N.eqb_spec var w) as [->|]; [|reflexivity].
-      destruct Hw as [Hw| ->]; contradiction. }
+      destruct Hw as [Hw|[Hw|Hw]]; [contradiction | congruence | destruct (fresh_id_fl _ _ Hfresh Hw)]. }
     cbn [SyltSem.exec] in Hev. unfold SyltSem.bind at 1 in Hev. rewrite new_cell_eq in Hev.
     fold e' in Hev. unfold SyltSem.bind at 1 in Hev.
     destruct (SyltSem.eval n e' value (s_alloc st (SV Values.VLuaNil))) as [[v_|o|cc] st1] eqn:He1.
@@ -536,7 +554,7 @@ Proof.
          - eapply cshape_cons; [exact Hsd|]. eapply cshape_app; [exact Hs1|].
            apply (cshape_plain u l1 (IAssign var rv) c' c'); [lia | reflexivity | reflexivity | apply used_plain].
          - cbn [stmt_post eval_post] in *.
-           eapply (exit_pre pv bound ctx sc (var :: sc) e e' st (s_alloc st (SV Values.VLuaNil)));
+           eapply (exit_pre pv sv bound u fl W ctx sc (var :: sc) e e' st (s_alloc st (SV Values.VLuaNil)));
              [exact Hokd | exact Hrel | exact Hse | apply incl_tl, incl_refl | eapply exit_app; [exact Hp1 | apply N.le_refl] | lia | lia]. }
     2: { inversion Hev; subst.
          destruct (IHe g' k value ctx c code_v rv c' e' _ _ st' (var :: sc) l E1 stL1 F He1 Hm Hfe Huv Hctx1 Hrel1 Hint)
@@ -545,12 +563,12 @@ Proof.
          - eapply cshape_cons; [exact Hsd|]. eapply cshape_app; [exact Hs1|].
            apply (cshape_plain u l1 (IAssign var rv) c' c'); [lia | reflexivity | reflexivity | apply used_plain].
          - cbn [stmt_post eval_post] in *.
-           eapply (exit_pre pv bound ctx sc (var :: sc) e e' st (s_alloc st (SV Values.VLuaNil)));
+           eapply (exit_pre pv sv bound u fl W ctx sc (var :: sc) e e' st (s_alloc st (SV Values.VLuaNil)));
              [exact Hokd | exact Hrel | exact Hse | apply incl_tl, incl_refl | eapply exit_app; [exact Hp1 | apply N.le_refl] | lia | lia]. }
     destruct (IHe g' k value ctx c code_v rv c' e' _ _ st1 (var :: sc) l E1 stL1 F He1 Hm Hfe Huv Hctx1 Hrel1 I)
       as (b1 & l1 & Hs1 & _ & _ & E2 & stL2 & F2 & Hok2 & Hd2). specialize (Hd2 Hcrv).
     pose proof Hok2 as (_ & _ & Hrel2 & _).
-    assert (Hctx2 : ctx_ok l1 F2 E2 c' c') by (eapply (ctx_after pv bound u); eassumption).
+    assert (Hctx2 : ctx_ok l1 F2 E2 c' c') by (eapply (ctx_after pv sv bound u fl W); eassumption).
     unfold SyltSem.bind at 1 in Hev. rewrite write_cell_eq in Hev. cbn in Hev. inversion Hev; subst r st'. clear Hev.
     assert (Hlk : SyltSem.lookup e' var = Some (length (SyltSem.cells st))) by (unfold e'; cbn [SyltSem.lookup]; rewrite N.eqb_refl; reflexivity).
     destruct (step_assign_user (var :: sc) e' st1 F2 c' c' E2 stL2 l1 var rv v_ _ Hrel2 (cx_lut _ _ _ _ _ _ Hctx2) (or_introl eq_refl) Hcvar Hlk Hd2)
@@ -563,9 +581,9 @@ Proof.
       eapply okstepS_trans; [exact Hok2 | exact Hok3 | apply incl_refl | lia | lia].
   - (* SLoop *)
     rewrite frag_stmt_loop in Hfrag.
-    destruct (noexit_expr k condition && frag_expr pv sv bound k sc condition && is_some (frag_stmts pv sv bound k sc body))%bool eqn:Hc; [|discriminate Hfrag].
+    destruct (noexit_expr k condition && frag_expr pv sv bound fl k sc condition && is_some (frag_stmts pv sv bound fl k sc body))%bool eqn:Hc; [|discriminate Hfrag].
     inversion Hfrag; subst sc'. clear Hfrag.
-    frag_split Hc. destruct (frag_stmts pv sv bound k sc body) as [scb|] eqn:Hfb; [|discriminate Hfr].
+    frag_split Hc. destruct (frag_stmts pv sv bound fl k sc body) as [scb|] eqn:Hfb; [|discriminate Hfr].
     cbn [statement] in Hlow. mon Hlow. fresh_all.
     destruct a as [code_c vc]. cbn [fst snd] in *.
     apply lower_list_ok in Hm1 as (cs & Hmb & ->).
@@ -577,10 +595,10 @@ Proof.
     apply ucovers_app in Hu as [Huc Hu]. apply ucovers_app in Hu as [Huif Hub].
     assert (Hcvc : 1 <= count_of u vc) by (eapply Huif; [left; reflexivity | left; reflexivity]).
     (* structure *)
-    destruct (L_expr_all pv sv bound u g k condition ctx c code_c vc c0 sc l Hm Hfr0) as (bc0 & lc0 & Hsc0 & _ & _).
+    destruct (L_expr_all pv sv bound u fl g k condition ctx c code_c vc c0 sc l Hm Hfr0) as (bc0 & lc0 & Hsc0 & _ & _).
     pose proof Hsc0 as (_ & Hcc0 & _).
     assert (HLb : forall l0, exists bb l2, cshape u l0 (concat cs) bb l2 (c0 + 1) c')
-      by (intros l0; eapply (L_stmts_all pv sv bound u g); eassumption).
+      by (intros l0; eapply (L_stmts_all pv sv bound u fl g); eassumption).
     destruct (HLb lc0) as (bb0 & l20 & Hsb0). pose proof Hsb0 as (_ & Hc0c' & _).
     assert (Hmk : forall bc l1 bb l2, cshape u l code_c bc l1 c c0 -> cshape u l1 (concat cs) bb l2 (c0 + 1) c' ->
               cshape u l (code_c ++ (IIf vc :: [] ++ IElse :: [IBreak] ++ [IEnd]) ++ concat cs)
@@ -633,7 +651,7 @@ Proof.
           split; [apply Hstep; exact HL | split; [exact Hr' | eapply xkeep_trans; eassumption]].
         - destruct Hr as (ev & sL' & HL & Htr). exists ev, sL'. split; [apply Hstep; exact HL | exact Htr]. }
       (* a pass that ends the loop, goes on with continue, or fails *)
-      assert (Hterm : forall (rr : SyltSem.res senv) s2, exit_post pv bound c0 sc e c c' E sL0 BB rr s2 ->
+      assert (Hterm : forall (rr : SyltSem.res senv) s2, exit_post pv sv bound u fl W c0 sc e c c' E sL0 BB rr s2 ->
                 match rr with
                 | SyltSem.RStop o => exists ev sL', LoopR E (fmt_label c0) BB sL0 (RErr ev sL') /\ SyltSem.trace s2 = s_out sL'
                 | SyltSem.RAbrupt SyltSem.CBreak =>
@@ -658,8 +676,8 @@ Proof.
       destruct (IHe g k condition ctx c code_c vc c0 e s0 _ s1 sc l E sL0 F Hec Hm Hfr0 Huc Hctxc Hrel0 I)
         as (bc & l1 & Hs1 & _ & _ & E1 & sL1 & F1 & Hok1 & Hd1). specialize (Hd1 Hcvc).
       pose proof Hok1 as (Hx1 & Hf1 & Hrel1 & Hn1 & Hk1).
-      assert (Hctx1 : ctx_ok l1 F1 E1 c0 c') by (eapply (ctx_after pv bound u); eassumption).
-      pose proof (r_wf _ _ _ _ _ _ _ Hrel1) as Hwf1. pose proof (r_linv _ _ _ _ _ _ _ Hrel1) as Hli1.
+      assert (Hctx1 : ctx_ok l1 F1 E1 c0 c') by (eapply (ctx_after pv sv bound u fl W); eassumption).
+      pose proof (r_wf _ _ _ _ _ _ _ _ _ _ _ Hrel1) as Hwf1. pose proof (r_linv _ _ _ _ _ _ _ _ _ _ _ Hrel1) as Hli1.
       destruct (denotes_now _ _ _ _ _ Hd1 Hwf1 Hli1) as (lvc & Hvvc & stc & Hevc & _ & Hxc).
       unfold SyltSem.bind at 1 in Hgo.
       assert (Hbc : exists bcv, cv = SV (Values.VBool bcv)).
@@ -669,7 +687,7 @@ Proof.
       destruct bcv.
       - (* the condition holds: the body *)
         assert (Hokif : okstep sc e s1 F1 c0 c0 E1 sL1 [SIf (aexpand l1 vc) [] [SBreak]] E1 stc F1).
-        { eapply (okstep_if pv bound sc e s1 s1 F1 c0 c0 E1 sL1 _ [] [SBreak] (VBool true) stc E1 stc);
+        { eapply (okstep_if pv sv bound u fl W sc e s1 s1 F1 c0 c0 E1 sL1 _ [] [SBreak] (VBool true) stc E1 stc);
             [exact Hrel1 | exact Hevc | exact Hxc | cbn [truthy]; constructor | cbn [truthy]; apply XS_nil | exact Hrelc |].
           split; [apply Pos.le_refl | intros; reflexivity]. }
         assert (Hokp : okstep sc e s1 F c c0 E sL0 (bc ++ [SIf (aexpand l1 vc) [] [SBreak]]) E1 stc F1)
@@ -683,11 +701,11 @@ Proof.
         destruct (IHss g k body c0 (c0 + 1) cs c' e s1 rb s2 sc scb l1 E1 stc F1 Heb Hmb Hfb Hub Hctxb Hrelc Hintb)
           as (bb & l2' & Hs2 & Hpost).
         pose proof (Hsame _ _ _ _ Hs1 Hs2) as HeqBB. rewrite app_assoc in HeqBB.
-        assert (Hxp : match rb with SyltSem.RVal _ => True | _ => exit_post pv bound c0 sc e c c' E sL0 BB rb s2 end).
+        assert (Hxp : match rb with SyltSem.RVal _ => True | _ => exit_post pv sv bound u fl W c0 sc e c c' E sL0 BB rb s2 end).
         { destruct rb as [e2|o|a]; [exact I | |]; rewrite <- HeqBB; cbn [stmt_post] in Hpost.
-          - eapply (exit_pre_gen pv bound c0 sc sc e e s0 s1 F F1 c c0 (c0 + 1) c' c c' E sL0 _ E1 stc bb);
+          - eapply (exit_pre_gen pv sv bound u fl W c0 sc sc e e s0 s1 F F1 c c0 (c0 + 1) c' c c' E sL0 _ E1 stc bb);
               [exact Hokp | exact Hrel0 | apply sext_refl | apply incl_refl | exact Hpost | lia | lia | lia | lia].
-          - eapply (exit_pre_gen pv bound c0 sc sc e e s0 s1 F F1 c c0 (c0 + 1) c' c c' E sL0 _ E1 stc bb);
+          - eapply (exit_pre_gen pv sv bound u fl W c0 sc sc e e s0 s1 F F1 c c0 (c0 + 1) c' c c' E sL0 _ E1 stc bb);
               [exact Hokp | exact Hrel0 | apply sext_refl | apply incl_refl | exact Hpost | lia | lia | lia | lia]. }
         destruct rb as [e2|o|[| |v]].
         + (* the body ran to its end *)
@@ -711,15 +729,15 @@ Proof.
       - (* the condition fails: break *)
         inversion Hgo; subst r0 s0'. split; [reflexivity|].
         destruct (HLb l1) as (bb & l2' & Hs2). pose proof (Hsame _ _ _ _ Hs1 Hs2) as HeqBB. rewrite app_assoc in HeqBB.
-        assert (Hxif : exit_post pv bound c0 sc e c0 c0 E1 sL1 [SIf (aexpand l1 vc) [] [SBreak]] (SyltSem.RAbrupt SyltSem.CBreak : SyltSem.res senv) s1).
+        assert (Hxif : exit_post pv sv bound u fl W c0 sc e c0 c0 E1 sL1 [SIf (aexpand l1 vc) [] [SBreak]] (SyltSem.RAbrupt SyltSem.CBreak : SyltSem.res senv) s1).
         { exists (ROk (E1, SigBreak) stc). split.
           - apply XS_stop; [|intros []]. eapply Exec_if; [exact Hevc|]. cbn [truthy].
             apply ExecBlock_of_ExecS_nil; [apply XS_stop; [apply Exec_break | intros []] | repeat constructor].
           - cbn [exit_ok]. exists E1, stc. split; [reflexivity | split; [exact Hrelc|]].
             eapply xkeep_cells_ext; [exact Hwf1 | exact Hxc |]. split; [apply Pos.le_refl | intros; reflexivity]. }
-        assert (Hxp : exit_post pv bound c0 sc e c c' E sL0 BB (SyltSem.RAbrupt SyltSem.CBreak : SyltSem.res senv) s1).
+        assert (Hxp : exit_post pv sv bound u fl W c0 sc e c c' E sL0 BB (SyltSem.RAbrupt SyltSem.CBreak : SyltSem.res senv) s1).
         { rewrite <- HeqBB. eapply exit_app; [|apply N.le_refl].
-          eapply (exit_pre_gen pv bound c0 sc sc e e s0 s1 F F1 c c0 c0 c0 c c' E sL0 bc E1 sL1);
+          eapply (exit_pre_gen pv sv bound u fl W c0 sc sc e e s0 s1 F F1 c c0 c0 c0 c c' E sL0 bc E1 sL1);
             [exact Hok1 | exact Hrel0 | apply sext_refl | apply incl_refl | exact Hxif | lia | lia | lia | lia]. }
         exact (Hterm _ _ Hxp). }
     pose proof (Hiter n st stL r st' Hev Hint Hrel) as Hres. clear Hiter.
@@ -746,7 +764,7 @@ Proof.
     cbn [exit_ok]. exists E, stL. split; [reflexivity | split; [exact Hrel | split; [lia | auto]]].
   - (* SBlock *)
     rewrite frag_stmt_block in Hfrag. cbn [statement] in Hlow. apply lower_list_ok in Hlow as (cs & Hm & ->).
-    destruct (frag_stmts pv sv bound k sc statements) as [sc1|] eqn:Hs; [|discriminate Hfrag]. inversion Hfrag; subst sc'.
+    destruct (frag_stmts pv sv bound fl k sc statements) as [sc1|] eqn:Hs; [|discriminate Hfrag]. inversion Hfrag; subst sc'.
     cbn [SyltSem.exec] in Hev. unfold SyltSem.bind at 1 in Hev.
     destruct (SyltSem.exec_block n e statements st) as [[e1|o|cc] st1] eqn:He1.
     2: { inversion Hev; subst.
@@ -763,7 +781,7 @@ Proof.
     split; [exact Hx1|]. split; [exact Hf1|]. split; [eapply rel_shrink; eassumption|]. split; assumption.
   - (* SStatementExpression *)
     rewrite frag_stmt_sexpr in Hfrag. cbn [statement] in Hlow. mon Hlow.
-    destruct (frag_expr pv sv bound k sc value) eqn:Hfe; [|discriminate Hfrag]. inversion Hfrag; subst sc'.
+    destruct (frag_expr pv sv bound fl k sc value) eqn:Hfe; [|discriminate Hfrag]. inversion Hfrag; subst sc'.
     destruct a as [code_v rv]. cbn [fst] in *.
     cbn [SyltSem.exec] in Hev. unfold SyltSem.bind at 1 in Hev.
     destruct (SyltSem.eval n e value st) as [[v_|o|cc] st1] eqn:He1.
@@ -800,7 +818,7 @@ Qed.
 Lemma P_bv_succ n : P_eval n -> P_execs n -> P_bv (S n).
 Proof.
   intros IHe IHss g k body ctx c code c' e st r st' sc sc' l E stL F out p lo hi
-         Hev Hlow Hfrag Hu Hctx Hrel Hblo Hlc Hch Hout Hoc Hp Hcell Hlout Hcout Hint.
+         Hev Hlow Hfrag Hu Hctx Hrel Hblo Hlc Hch Hout Hoc Hp Hnp Hcell Hlout Hcout Hint.
   cbn [SyltSem.block_value] in Hev. unfold lower_eblock in Hlow.
   assert (Hbout : bound <= out) by lia.
   (* all statements, the value is nil *)
@@ -812,7 +830,7 @@ Proof.
     destruct (SyltSem.exec_block n e body st) as [[e1|o|cc] st1] eqn:He1.
     2,3: (inversion Hev'; subst;
           destruct (IHss g k body ctx c cs c' e st _ st' sc sc' l E stL F He1 Hm Hfrag Hu Hctx Hrel Hint) as (b1 & l1 & Hs1 & Hpost);
-          eexists _, _; (split; [exact Hs1|]); cbn [stmt_post bv_post] in *; eapply (xpost_widen pv bound ctx sc e c c' lo hi); [exact Hpost | lia | lia]).
+          eexists _, _; (split; [exact Hs1|]); cbn [stmt_post bv_post] in *; eapply (xpost_widen pv sv bound u fl W ctx sc e c c' lo hi); [exact Hpost | lia | lia]).
     cbn in Hev'. inversion Hev'; subst r st'. clear Hev'.
     destruct (IHss g k body ctx c cs c' e st _ st1 sc sc' l E stL F He1 Hm Hfrag Hu Hctx Hrel I)
       as (b1 & l1 & Hs1 & E1 & stL1 & F1 & Hok1 & Hse1 & Hinc1).
@@ -827,16 +845,16 @@ Proof.
   assert (Hbody : body = rev init_rev ++ [SStatementExpression value sp]) by (rewrite <- (rev_involutive body), Hrev; reflexivity).
   rewrite Hbody in Hfrag. clear Hbody Hrev.
   mon Hlow. apply lower_list_ok in Hm as (cs & Hmi & ->).
-  destruct (frag_stmts_app pv sv bound _ _ _ _ _ Hfrag) as (sc1 & k' & Hfi & Hfl).
+  destruct (frag_stmts_app pv sv bound fl _ _ _ _ _ Hfrag) as (sc1 & k' & Hfi & Hfl).
   destruct k' as [|k']; [discriminate|]. rewrite frag_stmts_cons in Hfl.
   destruct k' as [|k'']; [discriminate|]. rewrite frag_stmt_sexpr in Hfl.
-  destruct (frag_expr pv sv bound k'' sc1 value) eqn:Hfe; [|discriminate Hfl].
+  destruct (frag_expr pv sv bound fl k'' sc1 value) eqn:Hfe; [|discriminate Hfl].
   destruct a0 as [cv rv]. cbn [fst snd] in *.
   apply ucovers_app in Hu as [Hui Hu]. apply ucovers_app in Hu as [Huv Hur].
   assert (Hcrv : 1 <= count_of u rv) by (eapply Hur; [left; reflexivity | right; left; reflexivity]).
-  destruct (L_stmts_all pv sv bound u g k (rev init_rev) ctx c cs c0 sc sc1 l Hmi Hfi) as (_ & _ & (_ & Hcc0 & _)).
+  destruct (L_stmts_all pv sv bound u fl g k (rev init_rev) ctx c cs c0 sc sc1 l Hmi Hfi) as (_ & _ & (_ & Hcc0 & _)).
   assert (HLv : forall l0, exists b2 l2, cshape u l0 cv b2 l2 c0 c')
-    by (intros l0; destruct (L_expr_all pv sv bound u g k'' value ctx c0 cv rv c' sc1 l0 Hm0 Hfe) as (b2 & l2 & Hs2 & _); eauto).
+    by (intros l0; destruct (L_expr_all pv sv bound u fl g k'' value ctx c0 cv rv c' sc1 l0 Hm0 Hfe) as (b2 & l2 & Hs2 & _); eauto).
   destruct (HLv l) as (_ & _ & (_ & Hc0c' & _)).
   assert (Hasg : forall l0, cshape u l0 [IAssign out rv] (fst (agen_one u l0 (IAssign out rv))) l0 c' c')
     by (intros l0; apply cshape_plain; [lia | reflexivity | reflexivity | apply used_plain]).
@@ -847,7 +865,7 @@ Proof.
         destruct (IHss g k (rev init_rev) ctx c cs c0 e st _ st' sc sc1 l E stL F He1 Hmi Hfi Hui Hctxi Hrel Hint) as (b1 & l1 & Hs1 & Hpost);
         destruct (HLv l1) as (b2 & l2 & Hs2);
         eexists _, _; (split; [eapply cshape_app; [exact Hs1|]; eapply cshape_app; [exact Hs2 | apply Hasg]|]);
-        cbn [stmt_post bv_post] in *; eapply exit_app; [eapply (xpost_widen pv bound ctx sc e c c0 lo hi); [exact Hpost | lia | lia] | apply N.le_refl]).
+        cbn [stmt_post bv_post] in *; eapply exit_app; [eapply (xpost_widen pv sv bound u fl W ctx sc e c c0 lo hi); [exact Hpost | lia | lia] | apply N.le_refl]).
   destruct (IHss g k (rev init_rev) ctx c cs c0 e st _ st1 sc sc1 l E stL F He1 Hmi Hfi Hui Hctxi Hrel I)
     as (b1 & l1 & Hs1 & E1 & stL1 & F1 & Hok1 & Hse1 & Hinc1).
   pose proof Hok1 as (Hx1 & Hf1 & Hrel1 & _).
@@ -857,7 +875,7 @@ Proof.
         destruct (IHe g k'' value ctx c0 cv rv c' e1 st1 _ st' sc1 l1 E1 stL1 F1 He2 Hm0 Hfe Huv Hctx1 Hrel1 Hint) as (b2 & l2 & Hs2 & _ & _ & Hp2);
         eexists _, _; (split; [eapply cshape_app; [exact Hs1|]; eapply cshape_app; [exact Hs2 | apply Hasg]|]);
         cbn [eval_post bv_post] in *;
-        eapply (exit_pre_gen pv bound ctx sc sc1 e e1 st st1 F F1 c c0 c0 c' lo hi);
+        eapply (exit_pre_gen pv sv bound u fl W ctx sc sc1 e e1 st st1 F F1 c c0 c0 c' lo hi);
           [exact Hok1 | exact Hrel | exact Hse1 | exact Hinc1 | eapply exit_app; [exact Hp2 | apply N.le_refl] | lia | lia | lia | lia]).
   inversion Hev; subst r st'. clear Hev.
   destruct (IHe g k'' value ctx c0 cv rv c' e1 st1 _ st2 sc1 l1 E1 stL1 F1 He2 Hm0 Hfe Huv Hctx1 Hrel1 I)
@@ -867,7 +885,7 @@ Proof.
   { apply (wr_incl _ _ _ _ _ _ _ Hf2); [exact Hbout|]. apply (wr_incl _ _ _ _ _ _ _ Hf1); assumption. }
   assert (Hl2out : alut_get l2 out = None).
   { destruct Hs1 as (_ & _ & Hfr1 & _). destruct Hs2 as (_ & _ & Hfr2 & _). rewrite Hfr2 by lia. rewrite Hfr1 by lia. exact Hlout. }
-  destruct (step_assign_temp pv bound u sc1 e1 st2 F2 lo hi E2 stL2 l2 out rv p v_ Hrel2 Hblo Hout Hcout Hp2 Hl2out Hd2)
+  destruct (step_assign_temp pv sv bound u fl W sc1 e1 st2 F2 lo hi E2 stL2 l2 out rv p v_ Hrel2 Hblo Hout Hcout Hp2 Hnp Hl2out Hd2)
     as (stL3 & lv & Hok3 & Hlv & Hvr).
   assert (Hall : okstepS sc sc1 e1 st2 F lo hi E stL (b1 ++ b2 ++ fst (agen_one u l2 (IAssign out rv))) E2 stL3 F2).
   { eapply (okstepS_trans_gen sc sc1 sc1 e1 st1 e1 st2 F F1 F2 c c0 lo hi lo hi); [exact Hok1 | | exact Hinc1 | lia | lia | lia | lia].
@@ -877,21 +895,158 @@ Proof.
   split; [eapply xkeep_of_wframe; apply Hall | rewrite Hlv; exact Hvr].
 Qed.
 
+(* ------------------------------------------------------------------ the body of a function *)
+
+Lemma mapM_snoc {A B} (f : A -> M B) a x c ca c1 cx c' :
+  mapM f a c = Ok (ca, c1) -> f x c1 = Ok (cx, c') -> mapM f (a ++ [x]) c = Ok (ca ++ [cx], c').
+Proof.
+  revert c ca. induction a as [|h t IH]; intros c ca Ha Hx.
+  - destruct (mapM_nil_ok _ _ _ _ Ha) as [-> ->]. cbn [app mapM]. unfold IR.bind, IR.ret. rewrite Hx. reflexivity.
+  - apply mapM_cons_ok in Ha as (y & c2 & ys & Hy & Hys & ->).
+    cbn [app mapM]. unfold IR.bind, IR.ret. rewrite Hy. rewrite (IH _ _ Hys Hx). reflexivity.
+Qed.
+
+Lemma L_fbody g k body ctx c code c' sc sc' l :
+  lower_fbody (statement g) (expression g) body ctx c = Ok (code, c') ->
+  frag_stmts pv sv bound fl k sc body = Some sc' ->
+  exists b l', cshape u l code b l' c c'.
+Proof.
+  intros Hlow Hfrag. unfold lower_fbody in Hlow.
+  destruct (rev body) as [|last init_rev] eqn:Hrev.
+  - apply ret_ok in Hlow as [<- <-]. eexists _, _. apply cshape_nil.
+  - assert (Hbody : body = rev init_rev ++ [last]) by (rewrite <- (rev_involutive body), Hrev; reflexivity).
+    rewrite Hbody in Hfrag. clear Hbody Hrev.
+    mon Hlow. apply lower_list_ok in Hm as (cs & Hmi & ->).
+    destruct (frag_stmts_app pv sv bound fl _ _ _ _ _ Hfrag) as (sc1 & k' & Hfi & Hfl).
+    destruct k' as [|k']; [discriminate|]. rewrite frag_stmts_cons in Hfl.
+    destruct (frag_stmt pv sv bound fl k' sc1 last) as [sc2|] eqn:Hflast; [|discriminate Hfl].
+    destruct (L_stmts_all pv sv bound u fl g k (rev init_rev) ctx c cs c0 sc sc1 l Hmi Hfi) as (b1 & l1 & Hs1).
+    destruct last; try (destruct (L_stmt_all pv sv bound u fl g k' _ ctx c0 a0 c' sc1 sc2 l1 Hm0 Hflast) as (b2 & l2 & Hs2);
+                        eexists _, _; eapply cshape_app; eassumption).
+    destruct k' as [|k'']; [discriminate|]. rewrite frag_stmt_sexpr in Hflast. destruct (frag_expr pv sv bound fl k'' sc1 value) eqn:Hfe; [|discriminate Hflast].
+    mon Hm0. destruct a as [cv rv]. cbn [fst snd] in *.
+    destruct (L_expr_all pv sv bound u fl g k'' value ctx c0 cv rv c' sc1 l1 Hm Hfe) as (b2 & l2 & Hs2 & _).
+    eexists _, _. eapply cshape_app; [exact Hs1|]. eapply cshape_app; [exact Hs2|].
+    apply (cshape_plain u l2 (IReturn rv) c' c'); [lia | reflexivity | reflexivity | reflexivity].
+Qed.
+
+Notation P_fb := (P_fb pv sv bound u fl W).
+Notation fb_post := (fb_post pv sv bound u fl W).
+
+Lemma P_fb_zero : P_fb O.
+Proof.
+  intros g k body ctx c code c' e st r st' sc sc' l E stL F Hev. cbn in Hev. inversion Hev; subst. intros. contradiction.
+Qed.
+
+Lemma P_fb_succ n : P_eval n -> P_execs n -> P_fb (S n).
+Proof.
+  intros IHe IHss g k body ctx c code c' e st r st' sc sc' l E stL F Hev Hlow Hfrag Hu Hctx Hrel Hint.
+  (* an abrupt end is outside what the post-condition says *)
+  assert (Hab : (exists cc, r = SyltSem.RAbrupt cc) -> exists b l', cshape u l code b l' c c' /\ fb_post sc e E stL b r st').
+  { intros [cc ->]. destruct (L_fbody g k body ctx c code c' sc sc' l Hlow Hfrag) as (b & l' & Hs). exists b, l'. split; [exact Hs | exact I]. }
+  cbn [SyltSem.block_value] in Hev. unfold lower_fbody in Hlow.
+  destruct (rev body) as [|last init_rev] eqn:Hrev.
+  - (* empty body *)
+    assert (body = []) by (rewrite <- (rev_involutive body), Hrev; reflexivity). subst body.
+    apply ret_ok in Hlow as [<- <-].
+    unfold SyltSem.bind in Hev. destruct n as [|n]; [cbn in Hev; inversion Hev; subst; destruct Hint|].
+    cbn in Hev. inversion Hev; subst r st'.
+    destruct k as [|k]; [discriminate|]. cbn in Hfrag. inversion Hfrag; subst sc'.
+    eexists _, _. split; [apply cshape_nil|]. cbn [fb_post].
+    exists E, SigNormal, stL, sc, e. splits; [apply XS_nil | left; split; reflexivity | exact Hrel | apply sext_refl | apply incl_refl | apply keep_refl | lia].
+  - assert (Hbody : body = rev init_rev ++ [last]) by (rewrite <- (rev_involutive body), Hrev; reflexivity).
+    mon Hlow. apply lower_list_ok in Hm as (cs & Hmi & ->).
+    pose proof Hfrag as Hfrag0.
+    destruct (frag_stmts_app pv sv bound fl _ _ _ _ _ Hfrag0) as (sc1 & k' & Hfi & Hfl).
+    destruct k' as [|k']; [discriminate|]. rewrite frag_stmts_cons in Hfl.
+    destruct (frag_stmt pv sv bound fl k' sc1 last) as [sc2|] eqn:Hflast; [|discriminate Hfl].
+    apply ucovers_app in Hu as [Hui Hul].
+    assert (Hle : c <= c0 /\ c0 <= c').
+    { destruct (L_stmts_all pv sv bound u fl g k (rev init_rev) ctx c cs c0 sc sc1 l Hmi Hfi) as (_ & _ & (_ & H1 & _)).
+      split; [exact H1|]. destruct last; try (destruct (L_stmt_all pv sv bound u fl g k' _ ctx c0 a0 c' sc1 sc2 l Hm0 Hflast) as (_ & _ & (_ & H2 & _)); exact H2).
+      destruct k' as [|k'']; [discriminate|]. rewrite frag_stmt_sexpr in Hflast. destruct (frag_expr pv sv bound fl k'' sc1 value) eqn:Hfe; [|discriminate Hflast].
+      mon Hm0. destruct a as [cv rv]. destruct (L_expr_all pv sv bound u fl g k'' value ctx c0 cv rv c' sc1 l Hm Hfe) as (_ & _ & (_ & H2 & _) & _). exact H2. }
+    destruct Hle as [Hc0 Hc0'].
+    assert (Hctxi : ctx_ok l F E c c0) by (eapply ctx_sub; [exact Hctx | lia | lia]).
+    (* the last statement is not an expression: the value is nil *)
+    assert (Hgen : SyltSem.bind (SyltSem.exec_block n e (rev init_rev ++ [last])) (fun _ : senv => SyltSem.ret (SV Values.VLuaNil)) st = (r, st') ->
+                   statement g last ctx c0 = Ok (a0, c') ->
+                   exists (b : block) (l' : alut), cshape u l (concat cs ++ a0) b l' c c' /\ fb_post sc e E stL b r st').
+    { intros Hev' Hst.
+      pose proof (mapM_snoc _ _ _ _ _ _ _ _ Hmi Hst) as Hmall.
+      assert (Hcc : concat (cs ++ [a0]) = concat cs ++ a0) by (rewrite concat_app; cbn [concat]; rewrite app_nil_r; reflexivity).
+      assert (Huall : ucovers u (concat (cs ++ [a0]))) by (rewrite Hcc; apply ucovers_app; split; assumption).
+      unfold SyltSem.bind at 1 in Hev'.
+      destruct (SyltSem.exec_block n e (rev init_rev ++ [last]) st) as [[e1|o|cc] st1] eqn:He1.
+      3: { inversion Hev'; subst. apply Hab. eexists; reflexivity. }
+      2: { inversion Hev'; subst.
+           destruct (IHss g k _ ctx c _ c' e st _ st' sc sc' l E stL F He1 Hmall Hfrag0 Huall Hctx Hrel Hint)
+             as (b1 & l1 & Hs1 & Hpost). rewrite Hcc in Hs1.
+           eexists _, _. split; [exact Hs1|]. cbn [stmt_post] in Hpost. cbn [fb_post].
+           destruct Hpost as (rl & Hx & (ev & stL' & -> & Htr)). exists ev, stL'. split; assumption. }
+      cbn in Hev'. inversion Hev'; subst r st'. clear Hev'.
+      destruct (IHss g k _ ctx c _ c' e st _ st1 sc sc' l E stL F He1 Hmall Hfrag0 Huall Hctx Hrel I)
+        as (b1 & l1 & Hs1 & E1 & stL1 & F1 & (Hx1 & Hf1 & Hrel1 & _ & Hk1) & Hse1 & Hinc1). rewrite Hcc in Hs1.
+      eexists _, _. split; [exact Hs1|].
+      exists E1, SigNormal, stL1, sc', e1. splits; [exact Hx1 | left; split; reflexivity | exact Hrel1 | exact Hse1 | exact Hinc1 | exact Hk1 | apply (wr_ncell _ _ _ _ _ _ _ Hf1)]. }
+    destruct last; try (apply Hgen; assumption).
+    (* the last statement is an expression: its value is returned *)
+    clear Hgen.
+    destruct k' as [|k'']; [discriminate|]. rewrite frag_stmt_sexpr in Hflast.
+    destruct (frag_expr pv sv bound fl k'' sc1 value) eqn:Hfe; [|discriminate Hflast].
+    mon Hm0. destruct a as [code_v rv]. cbn [fst snd] in *.
+    apply ucovers_app in Hul as [Huv Hur].
+    assert (Hcrv : 1 <= count_of u rv) by (eapply Hur; [left; reflexivity | left; reflexivity]).
+    assert (Hrest : forall l0, exists b2 l2, cshape u l0 code_v b2 l2 c0 c' /\ c0 <= rv /\ rv < c')
+      by (intros l0; apply (L_expr_all pv sv bound u fl g k'' value ctx c0 code_v rv c' sc1 l0 Hm Hfe)).
+    assert (Hret : forall l0, cshape u l0 [IReturn rv] (fst (agen_one u l0 (IReturn rv))) l0 c' c')
+      by (intros l0; apply cshape_plain; [lia | reflexivity | reflexivity | reflexivity]).
+    unfold SyltSem.bind at 1 in Hev.
+    destruct (SyltSem.exec_block n e (rev init_rev) st) as [[e1|o|cc] st1] eqn:He1.
+    3: { inversion Hev; subst. apply Hab. eexists; reflexivity. }
+    2: { inversion Hev; subst.
+         destruct (IHss g k _ ctx c _ c0 e st _ st' sc sc1 l E stL F He1 Hmi Hfi Hui Hctxi Hrel Hint)
+           as (b1 & l1 & Hs1 & Hp1). cbn [stmt_post] in Hp1. destruct Hp1 as (rl & Hx1 & (ev & stL1 & -> & Htr)).
+         destruct (Hrest l1) as (b2 & l2 & Hs2 & _).
+         eexists _, _. split; [eapply cshape_app; [exact Hs1|]; eapply cshape_app; [exact Hs2 | apply Hret]|].
+         exists ev, stL1. split; [apply ExecS_app_stop; [exact Hx1 | intros []] | exact Htr]. }
+    destruct (IHss g k _ ctx c _ c0 e st _ st1 sc sc1 l E stL F He1 Hmi Hfi Hui Hctxi Hrel I)
+      as (b1 & l1 & Hs1 & E1 & stL1 & F1 & Hok1 & Hse1 & Hinc1).
+    pose proof Hok1 as (Hx1 & Hf1 & Hrel1 & _ & Hk1).
+    assert (Hctx1 : ctx_ok l1 F1 E1 c0 c') by (eapply ctx_afterS; eassumption).
+    destruct (SyltSem.eval n e1 value st1) as [[v_|o|cc] st2] eqn:He2.
+    3: { inversion Hev; subst. apply Hab. eexists; reflexivity. }
+    2: { inversion Hev; subst.
+         destruct (IHe g k'' value ctx c0 code_v rv c' e1 st1 _ st' sc1 l1 E1 stL1 F1 He2 Hm Hfe Huv Hctx1 Hrel1 Hint)
+           as (b2 & l2 & Hs2 & _ & _ & Hp2). cbn [eval_post] in Hp2. destruct Hp2 as (rl & Hx2 & (ev & stL2 & -> & Htr)).
+         eexists _, _. split; [eapply cshape_app; [exact Hs1|]; eapply cshape_app; [exact Hs2 | apply Hret]|].
+         exists ev, stL2. split; [|exact Htr].
+         eapply ExecS_app; [exact Hx1|]. apply ExecS_app_stop; [exact Hx2 | intros []]. }
+    inversion Hev; subst r st'. clear Hev.
+    destruct (IHe g k'' value ctx c0 code_v rv c' e1 st1 _ st2 sc1 l1 E1 stL1 F1 He2 Hm Hfe Huv Hctx1 Hrel1 I)
+      as (b2 & l2 & Hs2 & _ & _ & E2 & stL2 & F2 & Hok2 & Hd2). specialize (Hd2 Hcrv).
+    pose proof Hok2 as (Hx2 & Hf2 & Hrel2 & _ & Hk2).
+    eexists _, _. split; [eapply cshape_app; [exact Hs1|]; eapply cshape_app; [exact Hs2 | apply Hret]|].
+    destruct (denotes_now _ _ _ _ _ Hd2 (r_wf _ _ _ _ _ _ _ _ _ _ _ Hrel2) (r_linv _ _ _ _ _ _ _ _ _ _ _ Hrel2)) as (lv & Hv & st3 & _ & Hm3 & Hx3).
+    exists E2, (SigReturn [lv]), st3, sc1, e1. splits.
+    + eapply ExecS_app; [exact Hx1|]. eapply ExecS_app; [exact Hx2|].
+      cbn [agen_one fst]. apply XS_stop; [|intros []].
+      eapply Exec_do. apply ExecBlock_of_ExecS; [|repeat constructor | intros []].
+      apply XS_stop; [|intros []]. apply Exec_return. apply EvalList_one. exact Hm3.
+    + right. exists lv. split; [reflexivity | exact Hv].
+    + eapply rel_cells_ext; eassumption.
+    + exact Hse1.
+    + exact Hinc1.
+    + intros w Hw. rewrite (Hk2 w (Hinc1 w Hw)). apply Hk1. exact Hw.
+    + pose proof (wr_ncell _ _ _ _ _ _ _ Hf1). pose proof (wr_ncell _ _ _ _ _ _ _ Hf2).
+      destruct Hx3 as (_ & _ & _ & _ & _ & _ & Hn3 & _). lia.
+Qed.
+
 Lemma P_bv_zero : P_bv O.
 Proof.
   intros g k body ctx c code c' e st r st' sc sc' l E stL F out p lo hi Hev.
   cbn in Hev. inversion Hev; subst. intros. contradiction.
 Qed.
-
-(* the four simulations together, by induction on the fuel of the reference interpreter *)
-Theorem P_all n : P_eval n /\ P_exec n /\ P_execs n /\ P_bv n.
-Proof.
-  induction n as [|n (IHe & IHs & IHss & IHb)].
-  - split; [apply P_eval_zero|]. split; [apply P_stmt_zero|]. split; [apply P_stmt_zero | apply P_bv_zero].
-  - split; [apply P_eval_succ; assumption|]. split; [apply P_exec_succ; assumption|].
-    split; [apply P_execs_succ; assumption | apply P_bv_succ; assumption].
-Qed.
-
 
 
 End Sim.
